@@ -308,3 +308,129 @@ def arm_report():
     reached = sorted(v[0] for v in _ARMS.values() if v[1] > 0)
     missed = sorted(v[0] for v in _ARMS.values() if v[1] == 0)
     return {"arms_total": len(_ARMS), "arms_reached": len(reached), "never_reached": missed[:60]}
+
+
+# ------------------------------------------------------------------------------------------------ M6
+# Online checker of a trace specification on live frames: every cursor-driven `while` scan of the backend kernels must
+# make progress - at each visit of the loop body the cursor variables are component-wise non-decreasing and their sum is
+# strictly larger than at the previous visit of the same activation.  (A scan whose cursor stops is a hang; one whose
+# cursor moves backwards re-reads input.)  Implemented with sys.monitoring local LINE/PY_START events on the kernels' code
+# objects only; the callback reads the cursors from the running frame.
+_PROGRESS = {"installed": False, "loops": {}, "state": {}, "events": 0, "frames": 0}
+
+
+def _loop_specs(func_node):
+    """for each while loop of a function: (first body line, cursor names) where cursors are names that occur in the loop
+    test and are incremented (+=) somewhere in the loop body"""
+    out = []
+    for node in ast.walk(func_node):
+        if isinstance(node, ast.While):
+            test_names = {n.id for n in ast.walk(node.test) if isinstance(n, ast.Name)}
+            inc = set()
+            for sub in ast.walk(node):
+                if isinstance(sub, ast.AugAssign) and isinstance(sub.op, ast.Add) and isinstance(sub.target, ast.Name):
+                    inc.add(sub.target.id)
+            cur = sorted(test_names & inc)
+            if cur and node.body:
+                out.append((node.body[0].lineno, tuple(cur)))
+    return out
+
+
+def _progress_error(name, line, prev, now, cursors):
+    return ContractBroken("cursor-progress:%s" % name,
+                          "scan in %s (line %d) made no progress: cursors %s went %r -> %r" % (name, line, cursors, prev, now))
+
+
+def install_progress_monitor(ps):
+    if _PROGRESS["installed"] or not hasattr(sys, "monitoring"):
+        return False
+    mon = sys.monitoring
+    tool = 5
+    try:
+        mon.use_tool_id(tool, "vp-progress")
+    except ValueError:
+        return False
+    import pyspike.cython.python_backend as pb
+    import pyspike.cython.directionality_python_backend as dpb
+    targets = []
+    for mod in (pb, dpb):
+        for name, fn in vars(mod).items():
+            f = getattr(fn, "__wrapped__", fn)
+            while hasattr(f, "__wrapped__"):
+                f = f.__wrapped__
+            if inspect.isfunction(f) and f.__module__ == mod.__name__:
+                targets.append((mod.__file__, f, None))
+    emu = env.emu_modules()
+    if emu:
+        from . import pyxemu
+        for mname, mod in emu.items():
+            path = mod.__file__.replace(" [emulated]", "")
+            try:
+                src = pyxemu.translate(open(path).read())
+            except Exception:
+                continue
+            for name, fn in vars(mod).items():
+                f = fn
+                while hasattr(f, "__wrapped__"):
+                    f = f.__wrapped__
+                if inspect.isfunction(f) and f.__code__.co_filename == path:
+                    targets.append((path, f, src))
+    trees = {}
+    for path, f, src in targets:
+        key = path
+        if key not in trees:
+            try:
+                text = src if src is not None else open(path).read()
+                trees[key] = ast.parse(text)
+            except Exception:
+                trees[key] = None
+        tree = trees[key]
+        if tree is None:
+            continue
+        for node in ast.walk(tree):
+            if isinstance(node, ast.FunctionDef) and node.name == f.__code__.co_name and node.lineno == f.__code__.co_firstlineno:
+                specs = _loop_specs(node)
+                if specs:
+                    code = f.__code__
+                    for line, cursors in specs:
+                        _PROGRESS["loops"][(code, line)] = (f.__code__.co_name, cursors)
+                    mon.set_local_events(tool, code, mon.events.LINE | mon.events.PY_START)
+    state = _PROGRESS["state"]
+    loops = _PROGRESS["loops"]
+
+    def on_start(code, offset):
+        fr = sys._getframe(1)
+        for k in [k for k in state if k[0] == id(fr)]:
+            del state[k]
+        _PROGRESS["frames"] += 1
+
+    def on_line(code, line):
+        spec = loops.get((code, line))
+        if spec is None:
+            return mon.DISABLE
+        fr = sys._getframe(1)
+        loc = fr.f_locals
+        name, cursors = spec
+        try:
+            now = tuple(int(loc[c]) for c in cursors)
+        except Exception:
+            return None
+        _PROGRESS["events"] += 1
+        key = (id(fr), line)
+        prev = state.get(key)
+        state[key] = now
+        if prev is not None:
+            if any(a < b for a, b in zip(now, prev)) or sum(now) <= sum(prev):
+                raise _progress_error(name, line, prev, now, cursors)
+        return None
+    mon.register_callback(tool, mon.events.LINE, on_line)
+    mon.register_callback(tool, mon.events.PY_START, on_start)
+    _PROGRESS["installed"] = True
+    return True
+
+
+def progress_report():
+    if not _PROGRESS["installed"]:
+        return {}
+    return {"monitored_loops": len(_PROGRESS["loops"]), "loop_iterations_observed": _PROGRESS["events"],
+            "kernel_activations_observed": _PROGRESS["frames"]}
